@@ -35,6 +35,8 @@ def seed():
 
 
 def ncpu():
+    if os.environ.get('VERIF_PROCS'):        # tools that run several checks side by side
+        return max(1, int(os.environ['VERIF_PROCS']))
     try:
         return max(1, min(16, len(os.sched_getaffinity(0))))
     except Exception:
